@@ -45,7 +45,7 @@ VARIABLES
   got,       \* datum id -> slot in which it arrived (bounded model only: canonical orders)
   input,     \* caller's documents: [t, n] -> [frame, kw]          (THE FRAME CONDITION)
   orig,      \* monitor: content of each document at the moment it was handed over
-  dcache,    \* RunNormalizer._datum_cache: datum id -> [r, alias]
+  dcache,    \* RunNormalizer._datum_cache: datum id -> [r]
   sres,      \* RunNormalizer._sres_cache: resource -> parameters
   refs,      \* RunNormalizer._ext_ref_cache: sequence of [id, k, d, s]
   fr,        \* RunNormalizer._next_frame_index: key -> [carry, index]
@@ -99,7 +99,9 @@ Init0 == /\ phase = "start" /\ nres = 0 /\ nextEv = 1 /\ got = <<>>
 St == [input |-> input, dcache |-> dcache, refs |-> refs, fr |-> fr, emitted |-> emitted, out |-> <<>>,
        sdm |-> sdm, nconv |-> nconv, taint |-> taint]
 
-Convert(st, ref, fmode) ==
+\* aliased = datums whose cached copy shares datum_kwargs with the caller's document (all of them in the code as found,
+\* none after a deep copy; trace validation reads the set off the observed inputs)
+Convert(st, ref, fmode, aliased) ==
     LET id == ref.id
         k == ref.k
         dc == st.dcache[id]
@@ -119,7 +121,7 @@ Convert(st, ref, fmode) ==
         sddoc == ESdat(id, dc.r, k, ref.d, a, b, a + 1, b + 1)
         inOrder == CntOf(st.nconv, k) + 1 = ref.s
     IN [st EXCEPT
-          !.input = IF dc.alias /\ frame >= 0 THEN [@ EXCEPT ![DocId("datum", id)].frame = -1] ELSE @,   \* datum_kwargs.pop("frame")
+          !.input = IF id \in aliased /\ frame >= 0 THEN [@ EXCEPT ![DocId("datum", id)].frame = -1] ELSE @,   \* datum_kwargs.pop("frame")
           !.dcache = Drop(@, id),
           !.fr = IF frame >= 0 THEN Put(@, k, f1) ELSE @,
           !.emitted = IF newSR THEN @ \cup {uid} ELSE @,
@@ -128,17 +130,17 @@ Convert(st, ref, fmode) ==
           !.nconv = Put(@, k, CntOf(@, k) + 1),
           !.taint = IF frame >= 0 /\ (~inOrder \/ k \in @) THEN @ \cup {k} ELSE @]
 
-RECURSIVE ProcRefs(_, _, _, _)
-ProcRefs(st, rs, fmode, defer) ==   \* event(): convert what is cached (and not postponed), remember the rest
+RECURSIVE ProcRefs(_, _, _, _, _)
+ProcRefs(st, rs, fmode, defer, aliased) ==   \* event(): convert what is cached (and not postponed), remember the rest
     IF rs = <<>> THEN st
     ELSE LET h == Head(rs)
          IN IF h.id \in DOMAIN st.dcache /\ h.id \notin defer
-            THEN ProcRefs(Convert(st, h, fmode), Tail(rs), fmode, defer)
-            ELSE ProcRefs([st EXCEPT !.refs = Append(@, h)], Tail(rs), fmode, defer)
+            THEN ProcRefs(Convert(st, h, fmode, aliased), Tail(rs), fmode, defer, aliased)
+            ELSE ProcRefs([st EXCEPT !.refs = Append(@, h)], Tail(rs), fmode, defer, aliased)
 
-RECURSIVE ProcLate(_, _, _)
-ProcLate(st, rs, fmode) ==          \* stop(): every cached reference must have its datum by now
-    IF rs = <<>> THEN st ELSE ProcLate(Convert(st, Head(rs), fmode), Tail(rs), fmode)
+RECURSIVE ProcLate(_, _, _, _)
+ProcLate(st, rs, fmode, aliased) ==          \* stop(): every cached reference must have its datum by now
+    IF rs = <<>> THEN st ELSE ProcLate(Convert(st, Head(rs), fmode, aliased), Tail(rs), fmode, aliased)
 
 Assign(st) == /\ input' = st.input /\ dcache' = st.dcache /\ refs' = st.refs /\ fr' = st.fr /\ emitted' = st.emitted
               /\ sdm' = st.sdm /\ nconv' = st.nconv /\ taint' = st.taint
@@ -170,11 +172,11 @@ DoResource(r, kw, hdf5, mmode) ==
     /\ out' = <<>>
     /\ UNCHANGED <<dcache, refs, fr, emitted, sdm, evs, evvals, nconv, taint>>
 
-\* datum(): cached (shallow copy as found)
-DoDatum(id, r, frame, kw, mmode) ==
+\* datum(): cached (shallow copy as found: whether the copy shares datum_kwargs shows when it is converted)
+DoDatum(id, r, frame, kw) ==
     /\ phase \in {"desc", "open"}
     /\ DocId("datum", id) \notin DOMAIN input
-    /\ dcache' = Put(dcache, id, [r |-> r, alias |-> mmode = "asfound"])
+    /\ dcache' = Put(dcache, id, [r |-> r])
     /\ input' = Put(input, DocId("datum", id), Content(frame, kw))
     /\ orig' = Put(orig, DocId("datum", id), Content(frame, kw))
     /\ out' = <<>>
@@ -183,9 +185,9 @@ DoDatum(id, r, frame, kw, mmode) ==
 \* event(): internal values re-emitted, then every external reference converted or remembered.
 \* defer = references postponed to stop although their datum is cached: {} in the code as found; a repair of
 \* KF-C35-2 may postpone (any choice satisfies the statement), trace validation reads it off the emitted documents.
-DoEvent(d, s, val, rs, fmode, defer) ==
+DoEvent(d, s, val, rs, fmode, defer, aliased) ==
     /\ phase \in {"desc", "open"}
-    /\ LET st == ProcRefs(St, rs, fmode, defer)
+    /\ LET st == ProcRefs(St, rs, fmode, defer, aliased)
        IN /\ Assign(st)
           /\ out' = <<EEvent(d, s, val)>> \o st.out
     /\ evs' = evs \cup {rs[i] : i \in 1..Len(rs)}
@@ -193,10 +195,10 @@ DoEvent(d, s, val, rs, fmode, defer) ==
     /\ UNCHANGED <<sres, orig>>
 
 \* stop(): late datums converted in the order of the remembered references, then the stop document
-DoStop(fmode) ==
+DoStop(fmode, aliased) ==
     /\ phase \in {"desc", "open"}
     /\ \A i \in 1..Len(refs) : refs[i].id \in DOMAIN dcache        \* otherwise RuntimeError (outside the domain)
-    /\ LET st == ProcLate([St EXCEPT !.refs = <<>>], refs, fmode)
+    /\ LET st == ProcLate([St EXCEPT !.refs = <<>>], refs, fmode, aliased)
        IN /\ Assign([st EXCEPT !.refs = refs])                     \* the code does not clear the list
           /\ out' = st.out \o <<EStop>>
     /\ phase' = "closed"
@@ -236,6 +238,7 @@ ModernKw == {<<"chunk_shape", "[1]">>} \cup (IF conf.rkind = "hdf5path" THEN {<<
                                              ELSE IF conf.rkind = "hdf5" THEN {<<"dataset", "/entry/d">>} ELSE {})
 DatumKw == IF IsHdf5 THEN {<<"dataset", "/entry/d">>} ELSE {<<"point_number", "0">>}
 ValOf(s) == 10 + s
+AliasedIn(mm) == IF mm = "asfound" THEN 1..(MaxEv * MaxKeys) ELSE {}
 RefsOf(s) == [k \in 1..conf.nk |-> [id |-> DatumOf(k, s), k |-> k, d |-> 1, s |-> s]]
 
 Init == /\ conf \in Confs
@@ -276,8 +279,7 @@ MDatum(k, s) ==
                /\ SlotOK(k, s, slot)
                /\ got' = Put(got, DatumOf(k, s), slot)
        ELSE got' = Put(got, DatumOf(k, s), "x")          \* any arrival order (after the resources, before stop)
-    /\ \E mm \in Modes(MutMode) :
-          DoDatum(DatumOf(k, s), ResOfKey(k), IF conf.frames THEN s - 1 ELSE -1, DatumKw, mm)
+    /\ DoDatum(DatumOf(k, s), ResOfKey(k), IF conf.frames THEN s - 1 ELSE -1, DatumKw)
     /\ UNCHANGED <<conf, phase, nres, nextEv>>
     /\ Log(H("datum", 1, s, k, DatumOf(k, s), ResOfKey(k)))
 
@@ -293,8 +295,8 @@ MStreamDatum(k) ==       \* modern run: the stream datums of event nextEv preced
 MEvent ==
     /\ InBody /\ nextEv <= conf.nev
     /\ conf.modern => \A k \in 1..conf.nk : DatumOf(k, nextEv) \in DOMAIN got
-    /\ \E fm \in Modes(FrameMode) :
-          DoEvent(1, nextEv, ValOf(nextEv), IF conf.modern THEN <<>> ELSE RefsOf(nextEv), fm, {})
+    /\ \E fm \in Modes(FrameMode), mm \in Modes(MutMode) :
+          DoEvent(1, nextEv, ValOf(nextEv), IF conf.modern THEN <<>> ELSE RefsOf(nextEv), fm, {}, AliasedIn(mm))
     /\ nextEv' = nextEv + 1
     /\ UNCHANGED <<conf, phase, nres, got>>
     /\ Log(H("event", 1, nextEv, 0, 0, 0))
@@ -302,7 +304,7 @@ MEvent ==
 MStop ==
     /\ InBody /\ nextEv = conf.nev + 1
     /\ conf.modern \/ \A k \in 1..conf.nk, s \in 1..conf.nev : DatumOf(k, s) \in DOMAIN got
-    /\ \E fm \in Modes(FrameMode) : DoStop(fm)
+    /\ \E fm \in Modes(FrameMode), mm \in Modes(MutMode) : DoStop(fm, AliasedIn(mm))
     /\ UNCHANGED <<conf, nres, nextEv, got>>
     /\ Log(H("stop", 0, 0, 0, 0, 0))
 
